@@ -969,3 +969,56 @@ func init() {
 		c.Check(n >= 6, "p2p :: inbound set-up failure exits found", "-", ">= 6", fmt.Sprintf("%d", n))
 	})
 }
+
+// ------------------------------------------------------------------ C17.R12
+// F24: the receiver reads every packet through a reader bounded by maxPacketMsgSize(). That bound has to be
+// the size of the *largest* packet a correct sender can emit: full payload, EOF flag set, and a channel id
+// whose varint encoding is the longest an id can have (ids are bytes: 0x80..0xff take two bytes).
+func init() {
+	register("C17", "R12", "K5", "the receiver's packet bound is computed for the largest packet a sender can produce (full payload, EOF, widest channel id)", 4, func(c *Ctx) {
+		w := c.W
+		f := c.fn("p2p/conn", "MConnection.maxPacketMsgSize")
+		if f == nil {
+			return
+		}
+		fk := funcKey(f)
+		got := map[string]ssa.Value{}
+		for _, di := range w.deepInstrs(f, 1) {
+			if st, ok := di.in.(*ssa.Store); ok {
+				if fa, ok := st.Addr.(*ssa.FieldAddr); ok {
+					if n := derefNamed(fa.X.Type()); n != nil && n.Obj().Name() == "PacketMsg" {
+						got[fieldName(fa.X.Type(), fa.Field)] = st.Val
+					}
+				}
+			}
+		}
+		id, isC := int64(0), false
+		if v, ok := got["ChannelID"]; ok {
+			id, isC = constInt(v)
+		}
+		c.Check(isC && id >= 0x80 && id <= 0xff, fk+" :: bound uses a channel id with the widest encoding", w.pos(f.Pos()), "ChannelID in 0x80..0xff", fmt.Sprintf("the bound is computed for channel id %#x: a full packet on a channel with an id of 0x80 or above is one byte longer and is refused", id))
+		eof, isB := false, false
+		if v, ok := got["EOF"]; ok {
+			eof, isB = boolConst(v)
+		}
+		c.Check(isB && eof, fk+" :: bound includes the EOF flag", w.pos(f.Pos()), "EOF: true", "the bound is computed without the EOF flag")
+		okData := false
+		if v, ok := got["Data"]; ok {
+			okData = regexp.MustCompile(`^make\(\[\]byte,.*\.MaxPacketMsgPayloadSize\)$`).MatchString(strings.ReplaceAll(w.expr(v), " ", ""))
+		}
+		c.Check(okData, fk+" :: bound uses the full payload size", w.pos(f.Pos()), "make([]byte, MaxPacketMsgPayloadSize)", "payload of the bound packet is "+fmt.Sprint(got["Data"]))
+		// the id a sender can put on the wire is a byte
+		if d := w.Pkg("p2p/conn"); d != nil {
+			if obj := d.Pkg.Scope().Lookup("ChannelDescriptor"); obj != nil {
+				if st, ok := obj.Type().Underlying().(*types.Struct); ok {
+					for i := 0; i < st.NumFields(); i++ {
+						if st.Field(i).Name() == "ID" {
+							b, isBasic := st.Field(i).Type().Underlying().(*types.Basic)
+							c.Check(isBasic && b.Kind() == types.Uint8, "p2p/conn.ChannelDescriptor.ID is a byte", w.pos(f.Pos()), "byte", "channel ids are "+st.Field(i).Type().String()+": the widest id no longer fits the bound's assumption")
+						}
+					}
+				}
+			}
+		}
+	})
+}
